@@ -300,6 +300,9 @@ def lastView (c : Cmp) (es : List Entry) (k : Bytes) : Option String := view c e
 /-- oracle for one reopened crash image (C02/C03/C05): see DESIGN.md section 7 -/
 def crashCheck (t : TS) (n v : Nat) (rc : String) (recLog : Int) (run : Run) : TS :=
   let t := { t with nCrash := t.nCrash + 1 }
+  -- variant 5 (zero block in the middle of a log) is damage outside the crash model of C02/C05: refusing to open is allowed
+  -- (it is what paranoid_checks asks for); what is judged is that nothing invented or partial comes back when it does open
+  if rc != "rc=0" && v == 5 then { t with lastCrash := none, pendingNested := [] } else
   if rc != "rc=0" then t.problem "VIOLATION[crashopen]" s!"reopening crash image n={n} variant={v} failed: {rc}" else
   let begun := t.batches.filter (fun b => b.jBegin < n)
   let acked := begun.filter (fun b => b.jAck < n)
@@ -312,13 +315,23 @@ def crashCheck (t : TS) (n v : Nat) (rc : String) (recLog : Int) (run : Run) : T
   -- per log: the last batch that left a trace in the recovered database
   let pOf := fun (l : Nat) => (begun.filter (fun b => !b.failed && b.log == l && b.entries.any (fun e => run.contains e))).foldl (fun m b => max m b.seq0) 0
   -- a write that returned an error may or may not have reached the log: it counts as present iff it left a trace
-  let inS := fun (b : BatchRec) => if b.failed then b.entries.any (fun e => run.contains e) && b.entries.all (fun e => run.contains e || true)
+  -- variant 5 (a zero block inside the unsynced part of a log): what survives is no longer a prefix of the log, so a batch
+  -- counts as present iff it left a trace; the atomicity clause below makes sure it is then there as a whole
+  let inS := fun (b : BatchRec) => if b.failed || v == 5 then b.entries.any (fun e => run.contains e) || (v == 5 && decide ((b.log : Int) < recLog))
                                    else decide ((b.log : Int) < recLog) || b.seq0 ≤ pOf b.log
   let sEntries := (begun.filter inS).flatMap (·.entries)
   -- (4) everything required survived
   let lost := required.filter (fun b => !inS b)
   let t := if lost.isEmpty then t
            else t.problem (if v == 0 then "VIOLATION[crashkill]" else "VIOLATION[crashsync]") s!"crash image n={n} variant={v}: acknowledged batches missing after recovery (first sequence numbers {lost.map (·.seq0)}, recovered log number {recLog})"
+  -- (5) all-or-nothing per batch: an entry of a batch is back while another entry of the same batch is gone, although no later
+  --     write to that key exists that could have shadowed it (a shadowed entry, or a tombstone with nothing below it, may legitimately
+  --     have been compacted away)
+  let torn := begun.filter fun b =>
+    b.entries.any (fun e => run.contains e) &&
+    b.entries.any (fun e => e.kind != 0 && !run.contains e && !hEntries.any (fun x => x.ukey == e.ukey && x.seq > e.seq))
+  let t := if torn.isEmpty then t
+           else t.problem "VIOLATION[batchatomic]" s!"crash image n={n} variant={v}: the batch starting at sequence {(torn.map (·.seq0)).headD 0} was recovered in part"
   -- (3) the recovered contents are those of a per-log prefix of what was written
   let keys := userKeys t.cmp hEntries
   let bad := keys.filter (fun k => lastView t.cmp run k != lastView t.cmp sEntries k)
@@ -661,7 +674,10 @@ def handleLine (t : TS) (line : String) : TS :=
     | some i, some l => { t with logUnlinks := t.logUnlinks ++ [(i, l)], nJ := t.nJ + 1 }
     | _, _ => { t with nJ := t.nJ + 1 }
   | "j" :: _ => { t with nJ := t.nJ + 1 }
-  | ["crash", n, v, rc] => let _ := (n, v); { (t.problem "VIOLATION[crashopen]" s!"reopening crash image n={n} variant={v} failed: {rc}") with nCrash := t.nCrash + 1 }
+  | ["crash", n, v, rc] =>
+    -- the image could not be opened (see crashCheck for variant 5)
+    if v == "5" then { t with nCrash := t.nCrash + 1, lastCrash := none, pendingNested := [] }
+    else { (t.problem "VIOLATION[crashopen]" s!"reopening crash image n={n} variant={v} failed: {rc}") with nCrash := t.nCrash + 1 }
   | ["crash", n, v, rc, reclog, _lastseq, entries] =>
     match n.toNat?, v.toNat?, (reclog.drop 7).toString.toInt?, parseEntries entries with
     | some n, some v, some rl, some run => { (crashCheck t n v rc rl run) with lastOver := [] }
